@@ -196,7 +196,7 @@ def region_sincospi_near_zero(case):
     if case["fn"] not in ("sinpi", "cospi"):
         return False
     x, y = _arg(case)
-    if abs(y) > 1e-3:
+    if abs(y) > 0.5:
         return False
     t = abs(x) * 2 % 1.0           # position inside the half-period
     if case["fn"] == "sinpi":
